@@ -872,7 +872,23 @@ class Interp:
             sort = z3.Float64() if ty == "f64" else z3.Float32()
             return z3.fpFPToFP(z3.RNE(), v, sort)
         if kind == "FloatToInt":
-            raise Inconclusive("float to int cast")
+            # Rust `as`: NaN -> 0, otherwise truncate toward zero and saturate at the target type's bounds
+            w = INT_W.get(ty)
+            if w is None or not z3.is_fp(v):
+                raise Inconclusive("float to int cast to " + ty)
+            sort = v.sort()
+            if ty in SIGNED:
+                lo, hi = -(1 << (w - 1)), (1 << (w - 1)) - 1
+                conv = z3.fpToSBV(z3.RTZ(), v, z3.BitVecSort(w))
+            else:
+                lo, hi = 0, (1 << w) - 1
+                conv = z3.fpToUBV(z3.RTZ(), v, z3.BitVecSort(w))
+            # 2^(w-1) resp. 2^w are exactly representable: v >= that bound saturates high; v <= lo (as a float) saturates low
+            hi_f = z3.FPVal(float(hi + 1), sort)
+            lo_f = z3.FPVal(float(lo), sort)
+            return z3.If(z3.fpIsNaN(v), z3.BitVecVal(0, w),
+                         z3.If(z3.fpGEQ(v, hi_f), z3.BitVecVal(hi, w),
+                               z3.If(z3.fpLEQ(v, lo_f), z3.BitVecVal(lo, w), conv)))
         if kind in ("Transmute", "PtrToPtr", "ReifyFnPointer", "Subtype"):
             return v
         raise Inconclusive("cast kind " + kind)
